@@ -24,6 +24,7 @@ def main():
         print(f'unknown property {prop}', file=sys.stderr)
         sys.exit(2)
     spec = props.SPECS[prop]
+    os.environ.setdefault('PICILISP_VERIF_WATCHDOG', '90' if args.tier == 'quick' else '900')
     run = lib.Run(prop, args.tier, seed)
     rng = random.Random(f'{seed}/{prop}')
 
@@ -40,6 +41,15 @@ def main():
     except Broken as b:
         log(f'OBLIGATION BROKEN: {b.what}\n{b.detail}')
         broken.append({'what': b.what, 'detail': b.detail[-3000:]})
+
+    # 3b. property-specific obligations computed from the current source (e.g. the panic-site inventory of C06)
+    for ob in spec.get('obligations', []):
+        try:
+            for d in ob():
+                log(f'OBLIGATION BROKEN: {d}')
+                broken.append({'what': d, 'detail': ''})
+        except Exception:
+            broken.append({'what': 'obligation check crashed', 'detail': traceback.format_exc()[-3000:]})
 
     # 4. build the real code from the current working tree
     build_failed = None
